@@ -77,6 +77,11 @@ func evalEngine(q logqlengine.Querier, query string, startNS, endNS int64, step 
 
 // evalEngineCtx runs the real engine; map iterations inside it are choice points of c (nil: default order).
 func evalEngineCtx(c *vsched.Ctx, q logqlengine.Querier, query string, startNS, endNS int64, step time.Duration) (res engResult) {
+	return evalEngineLimit(c, q, query, startNS, endNS, step, -1)
+}
+
+// evalEngineLimit: as evalEngineCtx with the entry limit of the request (which a metric query must ignore).
+func evalEngineLimit(c *vsched.Ctx, q logqlengine.Querier, query string, startNS, endNS int64, step time.Duration, limit int) (res engResult) {
 	defer func() {
 		if p := recover(); p != nil {
 			res.Panic = fmt.Sprint(p)
@@ -89,7 +94,7 @@ func evalEngineCtx(c *vsched.Ctx, q logqlengine.Querier, query string, startNS, 
 	vsched.WithMapOrder(c, func() {
 		eng := logqlengine.NewEngine(q, logqlengine.Options{TracerProvider: noop.NewTracerProvider()})
 		data, err = eng.Eval(context.Background(), query, logqlengine.EvalParams{
-			Start: otelstorage.Timestamp(startNS), End: otelstorage.Timestamp(endNS), Step: step, Limit: -1,
+			Start: otelstorage.Timestamp(startNS), End: otelstorage.Timestamp(endNS), Step: step, Limit: limit,
 		})
 	})
 	if err != nil {
